@@ -634,7 +634,15 @@ private:
                     table[seg_index].store(new_segment, std::memory_order_release);
                 });
             } else {
-                spin_wait_while_eq(table[seg_index], segment_type(nullptr));
+                atomic_backoff backoff;
+                while (table[seg_index].load(std::memory_order_acquire) == nullptr) {
+                    // The call that claimed the first element of the segment never enables it
+                    // if it failed to get the extended segment table
+                    if (this->my_segment_table_allocation_failed.load(std::memory_order_relaxed)) {
+                        throw_exception(exception_id::bad_alloc);
+                    }
+                    backoff.pause();
+                }
             }
         }
         return nullptr;
